@@ -263,6 +263,22 @@ Definition C16_attachments_marker (c : dcfg) (k : dcache) (parent : json) (evs :
       end
   end.
 
+(* ---------- clause 3b: a null status in the response must not materialise as a stored null ---------- *)
+(* SetNestedField(obj, nil-map, "status") puts an explicit null under "status" when the target had
+   no status at all; on a resource without status subresource the metadata update stores it, and
+   unstructured.NestedMap then fails on every later sync of that object *)
+Definition has_status_key (o : json) : bool := ahas "status" (obj_map o).
+
+Definition C16_no_explicit_null_status (c : dcfg) (parent : json) (evs : list ev) : option string :=
+  match round_hook_d evs with
+  | None => None
+  | Some (_, _, r) =>
+      if negb (is_null (dr_status r)) then None else
+      first_some (fun e =>
+        if is_target_write c parent e && accepted e && negb (has_status_key (e_pre e)) && has_status_key (post_state e)
+        then Some "explicit-null-status-written" else None) (after_hook evs)
+  end.
+
 (* ---------- the whole property on one round ---------- *)
 Definition C16_round (c : dcfg) (k : dcache) (evs : list ev) : option string :=
   orelse_s (C16_selected_only c k evs)
@@ -273,5 +289,6 @@ Definition C16_round (c : dcfg) (k : dcache) (evs : list ev) : option string :=
            (orelse_s (C16_null_deletes_unnamed_stay c t evs)
               (orelse_s (C16_status_null_untouched c t evs)
                  (orelse_s (C16_no_request_when_unchanged c t evs)
-                    (C16_attachments_marker c k t evs))))
+                    (orelse_s (C16_attachments_marker c k t evs)
+                       (C16_no_explicit_null_status c t evs)))))
      end).
